@@ -1480,3 +1480,71 @@ Proof.
   pose proof (read_source_terminates (aw_fs W) (as_stdin st) v).
   destruct (fst (read_source (aw_fs W) (as_stdin st) v)); try discriminate. congruence.
 Qed.
+
+(* ------------------------------------------------------------------------------------------------ *)
+(* dirname(3) / xbasename on paths of the usual shapes                                                *)
+(* ------------------------------------------------------------------------------------------------ *)
+Lemma sts_cons x t : x <> 47 -> strip_trailing_slashes (x :: t) = x :: t.
+Proof.
+  intro H. destruct x as [|p]; [reflexivity|].
+  do 6 (destruct p as [p|p|]; try reflexivity). congruence.
+Qed.
+Lemma sts_slash t : strip_trailing_slashes (47 :: t) = strip_trailing_slashes t.
+Proof. reflexivity. Qed.
+
+Lemma drop_nonslash_app a t : ~ In 47 a -> drop_while (fun b => negb (b =? 47)) (a ++ 47 :: t) = 47 :: t.
+Proof.
+  intro H. apply drop_while_app_stop; [|reflexivity].
+  apply forallb_forall. intros x Hx. destruct (x =? 47) eqn:E; auto. apply N.eqb_eq in E; subst; contradiction.
+Qed.
+Lemma take_nonslash_app a t : ~ In 47 a -> take_while (fun b => negb (b =? 47)) (a ++ 47 :: t) = a.
+Proof.
+  intro H. apply take_while_app_stop; [|reflexivity].
+  apply forallb_forall. intros x Hx. destruct (x =? 47) eqn:E; auto. apply N.eqb_eq in E; subst; contradiction.
+Qed.
+
+(* dir/base: base without slash and not empty, dir not empty and not ending with a slash *)
+Lemma dirname_basename_split d b x y d' b' :
+  d = d' ++ [x] -> x <> 47 -> b = b' ++ [y] -> ~ In 47 b ->
+  dirname (d ++ [47] ++ b) = d /\ basename (d ++ [47] ++ b) = b /\ self_of (d ++ [47] ++ b) = d ++ [47] ++ b.
+Proof.
+  intros Ed Hx Eb Hb.
+  assert (Hy : y <> 47) by (intro; subst; apply Hb; apply in_or_app; right; left; auto).
+  assert (Hrb : ~ In 47 (rev b)) by (rewrite <- in_rev; auto).
+  assert (Er : rev (d ++ [47] ++ b) = rev b ++ 47 :: rev d).
+  { rewrite !rev_app_distr. cbn [rev app]. rewrite <- app_assoc. reflexivity. }
+  assert (Erb : rev b = y :: rev b') by (subst b; rewrite rev_app_distr; reflexivity).
+  assert (Erd : rev d = x :: rev d') by (subst d; rewrite rev_app_distr; reflexivity).
+  assert (S1 : strip_trailing_slashes (rev b ++ 47 :: rev d) = rev b ++ 47 :: rev d).
+  { rewrite Erb. cbn [app]. apply sts_cons; auto. }
+  assert (S2 : strip_trailing_slashes (rev d) = rev d) by (rewrite Erd; apply sts_cons; auto).
+  assert (D : dirname (d ++ [47] ++ b) = d).
+  { unfold dirname. rewrite Er, S1.
+    destruct (rev b ++ 47 :: rev d) as [|z zs] eqn:F; [rewrite Erb in F; discriminate|]. rewrite <- F.
+    rewrite drop_nonslash_app by auto. cbv beta iota. rewrite sts_slash, S2.
+    destruct (rev d) as [|z' zs'] eqn:G; [rewrite Erd in G; discriminate|]. rewrite <- G.
+    apply rev_involutive. }
+  assert (B : basename (d ++ [47] ++ b) = b).
+  { unfold basename. rewrite Er, take_nonslash_app by auto. apply rev_involutive. }
+  split; auto. split; auto. unfold self_of. rewrite D, B. reflexivity.
+Qed.
+
+(* a bare name: the directory is "." *)
+Lemma dirname_basename_bare b b' y : b = b' ++ [y] -> ~ In 47 b ->
+  dirname b = [46] /\ basename b = b /\ self_of b = [46;47] ++ b.
+Proof.
+  intros Eb Hb.
+  assert (Hy : y <> 47) by (intro; subst; apply Hb; apply in_or_app; right; left; auto).
+  assert (Hrb : forallb (fun c => negb (c =? 47)) (rev b) = true).
+  { apply forallb_forall. intros c Hc. apply in_rev in Hc. destruct (c =? 47) eqn:E; auto.
+    apply N.eqb_eq in E; subst; contradiction. }
+  assert (Erb : rev b = y :: rev b') by (subst b; rewrite rev_app_distr; reflexivity).
+  assert (S1 : strip_trailing_slashes (rev b) = rev b) by (rewrite Erb; apply sts_cons; auto).
+  assert (D : dirname b = [46]).
+  { unfold dirname. rewrite S1.
+    destruct (rev b) as [|z zs] eqn:F; [discriminate|]. rewrite <- F.
+    rewrite drop_while_all by (rewrite F; auto). reflexivity. }
+  assert (B : basename b = b).
+  { unfold basename. rewrite take_while_all by auto. apply rev_involutive. }
+  split; auto. split; auto. unfold self_of. rewrite D, B. reflexivity.
+Qed.
